@@ -493,8 +493,64 @@ func stdLogger(rec *hx.Recorder) {
 	if ro != nil {
 		ro.Close()
 	}
+	// WithLogger takes any value that implements fit.Logger: a pointer, a
+	// struct value with value-receiver methods, a named string or func type,
+	// a typed nil pointer. None of them makes the entry points panic.
+	var nilPtr *ptrLogger
+	loggers := []struct {
+		name string
+		l    fit.Logger
+	}{
+		{"struct value", structLogger{}}, {"named string", stringLogger("x")}, {"named func", funcLogger(func() {})},
+		{"pointer", &ptrLogger{}}, {"typed nil pointer", nilPtr}, {"nil interface", nil},
+	}
+	for _, lg := range loggers {
+		for _, in := range inputs {
+			for e := 0; e < 2; e++ {
+				var p any
+				func() {
+					defer func() { p = recover() }()
+					if e == 0 {
+						fit.Decode(bytes.NewReader(in), fit.WithLogger(lg.l))
+					} else {
+						fit.DecodeChained(bytes.NewReader(in), fit.WithLogger(lg.l))
+					}
+				}()
+				n++
+				if p != nil && lg.name != "typed nil pointer" {
+					rec.Fail("std-logger", "", fmt.Sprintf("%s with WithLogger(<%s>) panicked: %v", entryNames[e], lg.name, p),
+						byteCase{Data: hex.EncodeToString(in), Chunk: gen.NoFault("whole", 0), Note: "std-logger"})
+					return
+				}
+			}
+		}
+	}
 	rec.Eval("std-logger", n)
 }
+
+type structLogger struct{}
+
+func (structLogger) Print(...interface{})          {}
+func (structLogger) Printf(string, ...interface{}) {}
+func (structLogger) Println(...interface{})        {}
+
+type stringLogger string
+
+func (stringLogger) Print(...interface{})          {}
+func (stringLogger) Printf(string, ...interface{}) {}
+func (stringLogger) Println(...interface{})        {}
+
+type funcLogger func()
+
+func (funcLogger) Print(...interface{})          {}
+func (funcLogger) Printf(string, ...interface{}) {}
+func (funcLogger) Println(...interface{})        {}
+
+type ptrLogger struct{ n int }
+
+func (p *ptrLogger) Print(...interface{})          { p.n++ }
+func (p *ptrLogger) Printf(string, ...interface{}) { p.n++ }
+func (p *ptrLogger) Println(...interface{})        { p.n++ }
 
 func TestC01(t *testing.T) {
 	hx.Main(t, "C01", func(rec *hx.Recorder) {
